@@ -217,6 +217,52 @@ def _undo_restore_peer_purged(v, events):
     return False
 
 
+def _undo_array_anchor_peer(v, events):
+    """KF-UNDO-ANCHOR-PURGED, silent variant: the history undoes/redoes an array edit and the failure is an
+    order-only difference of the array (same multiset of elements, identical remaining content): the reverse
+    Add named an anchor that the disagreeing replica had already purged and fell back to another place."""
+    import json as _json
+    if v["tag"] not in ("RefEquiv", "Converged", "BuildEquiv", "RefEquivN", "ConvergedN"):
+        return False
+    if any(e.get("err") and "injected storage fault" not in e["err"] for e in events
+           if e["ev"] in ("Sync", "Attach", "Detach", "Ref", "Build", "Undo", "Redo")):
+        return False
+    kinds = {(e.get("op") or {}).get("k") or "" for e in events if e["ev"] == "Edit"}
+    if not any(e["ev"] in ("Undo", "Redo") for e in events) or not any(k.startswith("arr.") for k in kinds):
+        return False
+    ev = v.get("event") or {}
+    refs = {e["s"]: e["content"] for e in events if e["ev"] == "Ref"}
+
+    def order_only(mine, theirs):
+        try:
+            a, b = _json.loads(mine), _json.loads(theirs)
+        except Exception:
+            return False
+        ra = _json.dumps({k: x for k, x in a.items() if k != "a"}, sort_keys=True)
+        rb = _json.dumps({k: x for k, x in b.items() if k != "a"}, sort_keys=True)
+        la, lb = a.get("a"), b.get("a")
+        return isinstance(la, list) and isinstance(lb, list) and la != lb and ra == rb and \
+            sorted(_json.dumps(x, sort_keys=True) for x in la) == sorted(_json.dumps(x, sort_keys=True) for x in lb)
+
+    if ev.get("ev") == "Build":
+        n = ev.get("s")
+        return n in refs and order_only(ev.get("content"), refs[n])
+    if ev.get("ev") == "Ref":
+        n = ev.get("s")
+        latest = {}
+        for e in events:
+            if e is ev or (e["ev"] == "Ref" and e["s"] == n):
+                break
+            if e.get("rep") and e["rep"].get("cp"):
+                latest[e["c"]] = e["rep"]
+        bad = [r["content"] for r in latest.values() if r["cp"][0] == n and not r.get("pend") and r["content"] != ev["content"]]
+        return bool(bad) and all(order_only(c, ev["content"]) for c in bad)
+    if ev.get("rep"):
+        n = (ev["rep"].get("cp") or [None])[0]
+        return n in refs and order_only(ev["rep"].get("content"), refs[n])
+    return False
+
+
 def _undo_move_anchor(v, events):
     """KF-UNDO-MOVE-ANCHOR-PURGED: the history undoes/redoes an array move and a
     replica rejects a change with 'MoveAfter ...: child not found'."""
@@ -226,7 +272,7 @@ def _undo_move_anchor(v, events):
     return any("MoveAfter" in (e.get("err") or "") and "child not found" in (e.get("err") or "") for e in events)
 
 
-TRIGGERS = {"KF-ARRAY-GC-ORDER": _array_gc_order, "KF-TEXT-GC-ORDER": _text_gc_order, "KF-TREE-GC-ORDER": _tree_gc_order, "KF-UNDO-RESTORE-PEER-PURGED": _undo_restore_peer_purged, "KF-UNDO-MOVE-ANCHOR-PURGED": _undo_move_anchor}
+TRIGGERS = {"KF-ARRAY-GC-ORDER": _array_gc_order, "KF-TEXT-GC-ORDER": _text_gc_order, "KF-TREE-GC-ORDER": _tree_gc_order, "KF-UNDO-RESTORE-PEER-PURGED": _undo_restore_peer_purged, "KF-UNDO-ANCHOR-PURGED": _undo_array_anchor_peer, "KF-UNDO-MOVE-ANCHOR-PURGED": _undo_move_anchor}
 
 
 def attribute(prop, v, events, first=None):
